@@ -46,26 +46,26 @@ CHECK = {
         "oracle. distinct_nontrivial = number of distinct (operation kind, bit pattern of all input contours) "
         "tuples whose result is non-empty and for which the oracle decided at least one inside and one outside "
         "point (lattice stages: distinct rectangle configurations with a non-empty union)."),
-    "min_nontrivial": {"quick": 20000, "thorough": 300000},
+    "min_nontrivial": {"quick": 20000, "thorough": 100000},
     # the check as a whole samples; only the latticepairs sub-space is exhaustive (see rule and counters)
     "exhaustive": {"quick": False, "thorough": False},
     "stages": [
         {"name": "soup", "variant": "asan", "harness": _H, "env": _ENV,
-         "cases": {"quick": 5000, "thorough": 200000}, "params": {"mode": "soup"}, "case_timeout": 300},
+         "cases": {"quick": 5000, "thorough": 40000}, "params": {"mode": "soup"}, "case_timeout": 300},
         {"name": "program", "variant": "asan", "harness": _H, "env": _ENV,
-         "cases": {"quick": 1500, "thorough": 40000},
+         "cases": {"quick": 1500, "thorough": 8000},
          "params": {"mode": "program", "steps": {"quick": 8, "thorough": 14}}, "case_timeout": 300},
         {"name": "lattice", "variant": "asan", "harness": _H, "env": _ENV,
-         "cases": {"quick": 20000, "thorough": 200000},
+         "cases": {"quick": 20000, "thorough": 80000},
          "params": {"mode": "lattice", "maxN": {"quick": 10, "thorough": 16}}, "case_timeout": 300},
         {"name": "latticepairs", "variant": "asan", "harness": _H, "env": _ENV,
          "cases": {"quick": 10000, "thorough": 50625},
          "params": {"mode": "latticepairs", "N": {"quick": 4, "thorough": 5}}, "case_timeout": 300},
         {"name": "large1k", "variant": "asan", "harness": _H, "env": _ENV,
-         "cases": {"quick": 16, "thorough": 160}, "params": {"mode": "large", "minEdges": 1024},
+         "cases": {"quick": 16, "thorough": 64}, "params": {"mode": "large", "minEdges": 1024},
          "case_timeout": 900},
         {"name": "large10k", "variant": "asan", "harness": _H, "env": _ENV,
-         "cases": {"quick": 8, "thorough": 48}, "params": {"mode": "large", "minEdges": 10000},
+         "cases": {"quick": 8, "thorough": 24}, "params": {"mode": "large", "minEdges": 10000},
          "case_timeout": 1800},
     ],
     "assumptions": [
